@@ -7,7 +7,8 @@
    labels) satisfies [span_ok]; every text fragment is the input slice at its offset.
    Analysis-stage labels are compared exactly with the implementation and monitored on it. *)
 From CL Require Import Base.StrLemmas Model.Lexer Model.Parser Proofs.LexerProofs
-  Proofs.ParserFM Proofs.ParserTotal Proofs.ParserSpans Proofs.ParserOrder.
+  Proofs.ParserFM Proofs.ParserTotal Proofs.ParserSpans Proofs.ParserOrder
+  Model.AnalysisLabels Proofs.AnalysisLabelsProofs Proofs.AnalysisLabelsFacts.
 
 Theorem C04_tokens_tile :
   forall (U : N -> ucls) s off ts, lex_at U s off = Some ts -> concat (map tstr ts) = s.
@@ -140,3 +141,88 @@ Proof.
   split; [eexists; split; [vm_compute; reflexivity|vm_compute; reflexivity]|].
   split; [cbn; lia|]. split; cbn; lia.
 Qed.
+
+(* ---- the labels of analysis-stage diagnostics ----
+   Model/AnalysisLabels.v enumerates every expression of src/analysis/event_consumer.rs (as of
+   17e6a01) that becomes a label of a diagnostic of stage Analysis (53 sites, [label_sites]: source
+   line and form) and classifies it: the span of a part of a parser event ([FPart]); the position at
+   the end of such a span ([FPosEnd]); the start of a metadata key joined with the end of its value
+   ([FJoinKV]); the offset of the front matter text plus a byte index into it, the index coming from
+   yaml_find_key_position ([FYamlKey], modelled function by function) or from serde_yaml's error
+   location ([FYamlErr], an oracle).  [produces evs f sp]: a label of form f can be sp on the stream evs. *)
+
+(* yaml_find_key_position: a returned position is the start of a line of the text (the search
+   runs on the line after trim_start, so the index of the key inside the line is always 0): a
+   character boundary of the text, at most its length; and the one slice of the function never panics *)
+Theorem C04_yaml_key_position_ok :
+  forall text key p, yaml_find_key_position text key = Done (Some p) -> boundary text p /\ p <= blen text.
+Proof. exact yaml_key_position_ok. Qed.
+Print Assumptions C04_yaml_key_position_ok.
+
+Theorem C04_yaml_key_position_total :
+  forall text key, exists r, yaml_find_key_position text key = Done r.
+Proof. exact yaml_key_position_total. Qed.
+Print Assumptions C04_yaml_key_position_total.
+
+(* each form yields a span that is in bounds, ordered and on character boundaries, from: every
+   span of every event is well placed (C04_event_spans_ok), every text fragment is the source slice
+   at its offset (C04_fragments_faithful), [ev_fact] (a metadata key starts at or before the end of
+   its value; the front matter text is one verbatim fragment), and the oracle hypothesis
+   [yaml_index_ok]: serde_yaml reports an index that is a character boundary of the text it parsed
+   (checked at run time: the C04 monitor flags every label that is not well placed) *)
+Theorem C04_analysis_label_forms_ok :
+  forall yaml_err_index (s : str) (evs : list pevent),
+    Forall (span_ok s) (flat_map event_spans evs) ->
+    (forall ev t f, In ev evs -> In t (event_texts ev) -> In f (frags t) -> sub s (ftext f) (foff f)) ->
+    Forall ev_fact evs -> yaml_index_ok yaml_err_index ->
+    forall f sp, f <> FNoteOld -> produces yaml_err_index evs f sp -> span_ok s sp.
+Proof.
+  intros y s evs H1 H2 H3 H4 f sp Hn Hp. exact (form_ok y s evs H1 H2 f sp Hn H3 H4 Hp).
+Qed.
+Print Assumptions C04_analysis_label_forms_ok.
+
+(* the two facts about events hold for every event of the pull parser: a metadata key starts at or
+   before the end of its value (key text from the tokens before the colon, value text from those
+   after it), and the only front matter event is the one built by Text::from_str *)
+Theorem C04_event_facts :
+  forall (U : N -> ucls) (cfg : pcfg) (s : str) (evs : list pevent),
+    p_strict_escape cfg = false -> events U cfg s = Done evs -> Forall ev_fact evs.
+Proof. exact events_ev_fact. Qed.
+Print Assumptions C04_event_facts.
+
+(* assembled over the enumeration, on the events of the pull parser with the current code: every
+   label that any of the 53 sites can produce from the events of any input is in bounds, ordered
+   and on character boundaries.  The one hypothesis left is the serde_yaml oracle [yaml_index_ok]
+   (site 248 only). *)
+Theorem C04_analysis_labels_ok :
+  forall (U : N -> ucls) (cfg : pcfg) (s : str) (evs : list pevent) yaml_err_index,
+    p_strict_escape cfg = false -> p_note_label_old cfg = false ->
+    events U cfg s = Done evs ->
+    yaml_index_ok yaml_err_index ->
+    forall line f sp, In (line, f) label_sites -> produces yaml_err_index evs f sp -> span_ok s sp.
+Proof.
+  intros U cfg s evs y H1 H2 E Hy.
+  exact (analysis_labels_ok U cfg s evs y H1 H2 E (events_ev_fact U cfg s evs H1 E) Hy).
+Qed.
+Print Assumptions C04_analysis_labels_ok.
+
+(* not vacuous: the witness input of the repaired defect has a note label under the current form,
+   and it is the note text (23, 25) *)
+Example C04_analysis_labels_inhabited :
+  exists evs, events U_plain cfg_now_all note_witness = Done evs /\
+    In (703, FPart PNote) label_sites /\ produces (fun _ => None) evs (FPart PNote) (23, 25).
+Proof.
+  eexists. split; [vm_compute; reflexivity|]. split.
+  { unfold label_sites. repeat (first [left; reflexivity | right]). }
+  cbn [produces]. eexists. split; [right; right; right; right; left; reflexivity|]. left. reflexivity.
+Qed.
+
+(* the code before 17e6a01: note_reference_error widened the note text's span by one byte on each
+   side; on "@salt{}\n\n@&salt{}(-- U+00E9 \nx)" the label (22, 26) starts inside U+00E9 *)
+Theorem C04_note_label_refuted_before_fix :
+  exists evs sp,
+    events U_plain cfg_now_all note_witness = Done evs /\
+    In (703, FNoteOld) label_sites_before_17e6a01 /\
+    produces (fun _ => None) evs FNoteOld sp /\ ~ span_ok note_witness sp.
+Proof. exact note_label_refuted_before_fix. Qed.
+Print Assumptions C04_note_label_refuted_before_fix.
